@@ -366,12 +366,37 @@ func basePDFs() []basePDF {
 			Filters: [][]string{{"FlateDecode"}, {"ASCII85Decode", "FlateDecode"}, {"ASCIIHexDecode"}}, Predictor: true, ToUniFlate: true,
 			Length: "before", LengthInObjStm: true, Depth: 3, FanOut: 1, BoxLevel: 3, RotLevel: 2}},
 	}
+	// the same filtered layout with the TIFF predictor (a single revision keeps the catalogue small)
+	tiff := layouts[2].l
+	tiff.TIFFPred = true
+	tiff.XRef = []string{"table"}
+	layouts = append(layouts, struct {
+		name string
+		docs []pdfw.Doc
+		l    pdfw.Layout
+	}{"tiff-predictor", []pdfw.Doc{d0}, tiff})
 	var out []basePDF
 	for _, l := range layouts {
 		r := pdfw.Write(l.docs, l.l)
 		out = append(out, basePDF{l.name, r, r.Bytes, l.docs, l.l})
 	}
 	return out
+}
+
+// isDictValue reports whether the token in front of off is a name: the integer at off is a dictionary value
+// (/Columns 8), not an element of a long array such as /Widths.
+func isDictValue(b []byte, off int) bool {
+	i := off - 1
+	for i >= 0 && (b[i] == ' ' || b[i] == '\n' || b[i] == '\r' || b[i] == '\t') {
+		i--
+	}
+	for i >= 0 && b[i] != ' ' && b[i] != '\n' && b[i] != '\r' && b[i] != '\t' && b[i] != '<' && b[i] != '[' && b[i] != '>' && b[i] != ']' {
+		if b[i] == '/' {
+			return true
+		}
+		i--
+	}
+	return false
 }
 
 func splice(b []byte, off, n int, repl string) []byte {
@@ -412,6 +437,19 @@ func pdfFaults(name string, r pdfw.Result, emit emitFn) {
 		case "int", "startxref":
 			for _, h := range hostileInts {
 				add(fmt.Sprintf("int %q at %d := %s", old, m.Off, h), splice(b, m.Off, m.Len, h))
+			}
+			// neighbouring values of the same length (the file stays consistent, every offset valid): a count,
+			// width or size that is off by one or simply another small number - /Columns 8 -> 7, /N 3 -> 4
+			if v, err := strconv.Atoi(old); err == nil && m.Role == "int" && isDictValue(b, m.Off) {
+				cand := []int{v - 1, v + 1}
+				if m.Len == 1 {
+					cand = []int{0, 1, 2, 3, 4, 5, 6, 7, 8, 9}
+				}
+				for _, c := range cand {
+					if h := strconv.Itoa(c); c != v && len(h) == m.Len {
+						add(fmt.Sprintf("int %q at %d := %s (same length)", old, m.Off, h), splice(b, m.Off, m.Len, h))
+					}
+				}
 			}
 			// a direct stream length (or object-stream / xref-stream field) turned into a reference to every object:
 			// cycles through the machinery that resolves lengths while an object is being loaded
@@ -707,15 +745,29 @@ func repoDocs() []struct{ name, ext, path string } {
 // tests
 
 func TestPDFFaultCatalogue(t *testing.T) {
-	bases := basePDFs()
+	all := basePDFs()
+	bases := all
 	if !vr.Thorough() {
-		bases = bases[1:2] // the richest layout; the thorough tier takes all three
+		bases = all[1:2] // the richest layout; the thorough tier takes all four
 	}
 	n := runCatalogue(t, func(emit emitFn) {
 		for _, bp := range bases {
 			pdfFaults(bp.name, bp.res, emit)
 			pdfFaultsConsistent(bp, emit)
 			pdfFaultsObjStmHeader(bp, emit)
+		}
+		if !vr.Thorough() {
+			// of the other layouts the quick tier takes the cheap, file-consistent family only: same-length neighbours
+			for i, bp := range all {
+				if i == 1 {
+					continue
+				}
+				pdfFaults(bp.name, bp.res, func(entry, ext, fault string, build func() []byte) {
+					if strings.Contains(fault, "(same length)") {
+						emit(entry, ext, fault, build)
+					}
+				})
+			}
 		}
 	})
 	if !t.Failed() {
